@@ -114,6 +114,9 @@ func ConcFamilies(seed int64, scale string) []ConcCase {
 		add("import/vs-write-"+bucket, nil, src, imp, onL2(fund("carol", "USD", 2, 3)))
 		out[len(out)-1].Extra = []CaseLedger{{Name: "l2", Bucket: bucket}}
 		out[len(out)-1].Target = "l2"
+		add("import/vs-acmeta-"+bucket, nil, src, imp, onL2(Op{K: "acmeta", Addr: "carol", Meta: map[string]string{"k": "v"}}))
+		out[len(out)-1].Extra = []CaseLedger{{Name: "l2", Bucket: bucket}}
+		out[len(out)-1].Target = "l2"
 		add("import/vs-import-"+bucket, nil, src, imp, imp)
 		out[len(out)-1].Extra = []CaseLedger{{Name: "l2", Bucket: bucket}}
 		out[len(out)-1].Target = "l2"
